@@ -21,8 +21,7 @@ class Engine:
         s.m = m; s.L = Layout(m); s.NT = nthreads; s.concrete = concrete; s.opts = opts or {}
         s.mem = Memory(s)
         s.gaddr = {}; s.tls = {}; s.faddr = {}; s.addr2f = {}
-        s.regs = [dict() for _ in range(nthreads + 1)]
-        s.overlay = {}
+        s.env = None            # register environment of the path being executed: list of per-frame dicts
         s.tstate = [dict() for _ in range(nthreads + 1)]
         s.checks = {}           # msg -> [guard, kind]
         s.assumes = []
@@ -151,17 +150,32 @@ class Engine:
                 if I.op == 'invoke': live |= f.liveout[fr[1]]
             for r in live: out.add((d, fr[0], r))
         return out
-    def commit_regs(s, t, ctrls):
-        """end of an epoch: merge registers written in this epoch into the base, keeping only those live at a suspended state"""
-        L = set()
-        for c in ctrls: L |= s.live_keys(c)
-        base = s.regs[t]; ov = s.overlay
-        for key, (val, wg) in ov.items():
-            if key not in L: continue
-            old = base.get(key)
-            base[key] = val if (old is None or wg is True) else ite(wg, val, old, s.wshape(val))
-        for key in [k for k in base if k not in L]: del base[key]
-        s.overlay = {}
+    def merge_env(s, ctrl, ga, ea, gb, eb):
+        """environment of the state obtained by merging (ga, ea) with the arriving (gb, eb) at control tuple ctrl:
+        per frame, live registers that differ are merged with ite(gb, vb, va)"""
+        if ea is eb or ea is None or eb is None: return ea if eb is None else eb
+        n = len(ctrl); out = []
+        for i in range(n):
+            da, db = ea[i], eb[i]
+            if da is db: out.append(da); continue
+            fr = ctrl[n - 1 - i]
+            if fr[0] == 'done': out.append(da); continue
+            f = s.m.funcs[fr[0]]
+            if i == n - 1: live = s.live_before(f, fr[1], fr[2])
+            else:
+                live = s.live_before(f, fr[1], fr[2] + 1) if fr[2] + 1 < len(f.blocks[fr[1]].ins) else f.liveout[fr[1]]
+                I = f.blocks[fr[1]].ins[fr[2]]
+                if I.op == 'invoke': live = set(live) | f.liveout[fr[1]]
+            d = {}
+            for k in live:
+                va = da.get(k); vb = db.get(k)
+                if va is None or vb is None:
+                    if va is not None: d[k] = va
+                    elif vb is not None: d[k] = vb
+                    continue
+                d[k] = va if va is vb else ite(gb, vb, va, s.wshape(vb))
+            out.append(d)
+        return out
     def wshape(s, v):
         if isinstance(v, tuple): return tuple(s.wshape(x) for x in v)
         if isinstance(v, int): return 64
@@ -297,21 +311,11 @@ class Engine:
     # ------------------------------------------------------------------ registers
     def val(s, f, v):
         if v.kind == 'local':
-            key = (s.depth, f.name, v.name)
-            o = s.overlay.get(key)
-            if o is not None:
-                if o[1] is True: return o[0]
-                b = s.regs[s.cur].get(key)
-                if b is None: return o[0]
-                return ite(o[1], o[0], b, s.wshape(o[0]))
-            try: return s.regs[s.cur][key]
+            try: return s.env[s.depth - 1][v.name]
             except KeyError: raise EngineLimit('read of unset register %%%s in %s' % (v.name, f.name))
         return s.const(v)
     def setreg(s, f, name_, val, guard, w, depth=None):
-        key = (s.depth if depth is None else depth, f.name, name_)
-        o = s.overlay.get(key)
-        if o is None or guard is True: s.overlay[key] = (val, guard)
-        else: s.overlay[key] = (ite(guard, val, o[0], w), gor(o[1], guard))
+        s.env[(s.depth if depth is None else depth) - 1][name_] = val
     def nondet(s, w, label):
         key = (label, s.cur, s.stepno)
         k = s.nd_count.get(key, 0); s.nd_count[key] = k + 1
@@ -373,58 +377,73 @@ class Engine:
         return False
     # ------------------------------------------------------------------ run
     def run(s, t, starts, stop_visible=True):
-        """Execute thread t from the guarded control states `starts` until each path has executed ONE visible
-        operation and reached its next one (stop_visible) or finished.  Paths reaching the same control tuple are merged."""
+        """Execute thread t from the control states `starts` (ctrl -> (guard, env)) until each path has executed ONE
+        visible operation and reached its next one (stop_visible) or finished.  Paths reaching the same control tuple
+        are merged (guards or-ed, differing live registers ite-merged).  Returns ctrl -> (guard, env)."""
         s.cur = t
         pend = {}; heap = []; out = {}; visits = {}
-        def push(ctrl, vis_ok, g):
+        def push(ctrl, vis_ok, g, env):
             if g is False: return
-            key = (ctrl, vis_ok)
-            if key in pend:
-                pend[key] = name(gor(pend[key], g)); s.stats['merges'] += 1
+            key = (ctrl, vis_ok); o = pend.get(key)
+            if o is not None:
+                pend[key] = (merge(o[0], g), s.merge_env(ctrl, o[0], o[1], g, env)); s.stats['merges'] += 1
             else:
-                pend[key] = g; heapq.heappush(heap, (s.prio(ctrl), vis_ok, ctrl))
-        for c, g in starts.items(): push(c, True, g)
+                pend[key] = (g, env); heapq.heappush(heap, (s.prio(ctrl), vis_ok, ctrl))
+        def emit(ctrl, g, env):
+            o = out.get(ctrl)
+            if o is None: out[ctrl] = (g, env)
+            else: out[ctrl] = (merge(o[0], g), s.merge_env(ctrl, o[0], o[1], g, env))
+        for c, (g, env) in starts.items(): push(c, True, g, env)
         budget = s.max_ins
         while heap:
             _, vis_ok, ctrl = heapq.heappop(heap)
-            g = pend.pop((ctrl, vis_ok), None)
-            if g is None: continue
+            st = pend.pop((ctrl, vis_ok), None)
+            if st is None: continue
+            g, env = st
             nv = visits.get(ctrl, 0) + 1; visits[ctrl] = nv
             if nv > s.opts.get('max_visits', 16) and s.concrete is None and not isinstance(g, bool):
-                if s.opts.get('feas'):
-                    if not s.feasible(g): continue
-                else:
-                    # loop bound ("unwinding assertion"): must be unreachable, decided by the engine-limit query
-                    s.add_check(g, 'ENGINE-LIMIT loop bound %d reached at %s' % (nv - 1, ctrl[0][:3]), 'limit'); continue
+                # loop bound ("unwinding assertion"): must be unreachable, decided by the engine-limit query
+                s.add_check(g, 'ENGINE-LIMIT loop bound %d reached at %s' % (nv - 1, ctrl[0][:3]), 'limit'); continue
             while True:
                 if ctrl[0][0] == 'done':
-                    out[ctrl] = gor(out.get(ctrl, False), g); break
+                    emit(ctrl, g, None); break
                 budget -= 1
                 if budget < 0: raise EngineLimit('per-step instruction budget exceeded in thread %d (non-visible loop?) at %r' % (t, ctrl[0]))
                 fr = ctrl[0]; f, I = s.ins_at(fr)
                 s.stats['ins'] += 1; s.fn_ins[fr[0]] = s.fn_ins.get(fr[0], 0) + 1
                 if stop_visible and s.is_visible(I):
                     if not vis_ok:
-                        out[ctrl] = gor(out.get(ctrl, False), g); break
+                        emit(ctrl, g, env); break
                     vis_ok = False
                     if s.concrete is not None: s.trace.append((s.stepno, t, fr[0], I.text.strip()[:120]))
-                s.depth = len(ctrl)
+                s.depth = len(ctrl); s.env = env
                 r = s.step_ins(t, f, ctrl, I, g)
                 if r is None:
                     ctrl = ((fr[0], fr[1], fr[2] + 1),) + ctrl[1:]
                     continue
-                r = [(c, gg) for c, gg in r if gg is not False]
+                r = [x for x in r if x[1] is not False]
                 if not r: break
                 if len(r) == 1:
-                    c2, g2 = r[0]; f2 = c2[0]
+                    c2, g2 = r[0][0], r[0][1]; f2 = c2[0]
+                    env = (env + [r[0][2]]) if len(r[0]) > 2 else s.env_for(env, len(ctrl), c2)
                     if f2[0] != 'done' and (len(c2) > len(ctrl) or
                             (len(c2) == len(ctrl) and f2[0] == fr[0] and f2[1] == fr[1] and len(f2) == 3 and f2[2] == fr[2] + 1)):
                         ctrl, g = c2, g2; continue
-                else: s.stats['forks'] += len(r) - 1
-                for c, gg in r: push(c, vis_ok, gg)
+                    push(c2, vis_ok, g2, env); break
+                s.stats['forks'] += len(r) - 1
+                for k, x in enumerate(r):
+                    c, gg = x[0], x[1]
+                    push(c, vis_ok, gg, (env + [x[2]]) if len(x) > 2 else s.env_for(env, len(ctrl), c, copy=(k > 0)))
                 break
         return out
+    def env_for(s, env, d0, c2, copy=False):
+        """environment for successor control tuple c2 of a state that had depth d0"""
+        if c2[0][0] == 'done': return None
+        d = len(c2)
+        if d < len(env): env = env[:d]
+        if copy or d < d0:
+            env = env[:-1] + [dict(env[-1])]
+        return env
     def feasible(s, g):
         s.stats['loopchk'] += 1
         if s.feas is None: s.feas = z3.Solver(); s.feas.set('timeout', 20000)
@@ -453,7 +472,7 @@ class Engine:
             c = v2b(s.val(f, I.cond))
             if c is True: return [(s.goto(f, ctrl, bi, I.t, g), g)]
             if c is False: return [(s.goto(f, ctrl, bi, I.f, g), g)]
-            g1, g2 = name(gand(g, c)), name(gand(g, gnot(c)))
+            g1, g2 = split(g, c)
             return [(s.goto(f, ctrl, bi, I.t, g1), g1), (s.goto(f, ctrl, bi, I.f, g2), g2)]
         if op == 'switch':
             v = s.val(f, I.v); w = s.width(I.v.ty); res = []; rest = g
@@ -469,7 +488,8 @@ class Engine:
             rv = None if I.v is None else s.val(f, I.v)
             if len(ctrl) == 1: return [((('done',),), g)]
             cfr = ctrl[1]; cf, CI = s.ins_at(cfr)
-            if CI.res is not None and rv is not None: s.setreg(cf, CI.res, rv, g, s.width(CI.rty), depth=len(ctrl) - 1)
+            d = len(ctrl); s.env[d - 2] = dict(s.env[d - 2])
+            if CI.res is not None and rv is not None: s.env[d - 2][CI.res] = rv
             if CI.op == 'invoke': return [(s.goto(cf, ctrl[1:], cfr[1], CI.normal, g), g)]
             return [(((cfr[0], cfr[1], cfr[2] + 1),) + ctrl[2:], g)]
         if op == 'unreachable':
@@ -484,7 +504,7 @@ class Engine:
             elif g is True: s.mem.forget(a, sz)
             s.setreg(f, I.res, a, g, 64); return None
         if op == 'load':
-            p = s.val(f, I.p); v = s.load_ty(p, I.ty, g, 'load in ' + f.name[:70])
+            p = s.val(f, I.p); v = s.load_ty(p, I.ty, g, 'load in ' + f.name[:70] + (' [%%%s]' % I.res if s.opts.get('debug') else ''))
             s.setreg(f, I.res, v, g, s.width(I.ty))
             if I.atomic: s.setlast(t, p, v, s.L.size(I.ty), g)
             return None
@@ -586,13 +606,14 @@ class Engine:
                         s.add_check(g2, 'ENGINE-LIMIT recursion bound %d reached for %s' % (nrec, nm[:80]), 'limit'); continue
                 args = [s.val(f, a) if a is not None else 0 for a in I.args]
                 d = len(ctrl) + 1
+                nf = {}
                 for (pty, pn, pa), a, av in zip(cf.params, args, I.args):
                     if pa and 'byval' in pa and not isinstance(pa['byval'], bool):
                         sz = s.L.size(pa['byval']); tmp = s.mem.alloc(sz, 'stack', 'byval:' + nm[:40], tid=t)
                         if not isinstance(a, int): raise Unsupported('byval with symbolic pointer')
                         s.mem.copy(tmp, a, sz, True); a = tmp
-                    s.setreg(cf, pn, a, g2, s.width(pty), depth=d)
-                res.append((((nm, 0, 0),) + ctrl, g2))
+                    nf[pn] = a
+                res.append((((nm, 0, 0),) + ctrl, g2, nf))
             else:
                 s.depth = len(ctrl)
                 r = s.intrinsic(t, f, ctrl, I, nm, g2)
@@ -623,6 +644,7 @@ class Engine:
                     if sel is None and LP.cleanup: sel = 0
                     if sel is not None:
                         s.tset(t, 'lp_sel', sel, gg, 32)
+                        s.env[len(c) - 1] = dict(s.env[len(c) - 1])
                         res.append((s.goto(f, c, fr[1], I.unwind, gg), gg)); found = True; break
                 c = c[1:]
             if not found:
@@ -660,7 +682,7 @@ class Engine:
         if nm == '_ZNSt18condition_variable4waitERSt11unique_lockISt5mutexE':
             ul = s.val(f, I.args[1]); return s.mem.load(ul, 8, True, 'cv.wait', check=False)
         return s.val(f, I.args[1])
-    def enabled(s, t, ctrl):
+    def enabled(s, t, ctrl, env=None):
         """enabledness guard of control tuple ctrl of thread t (True for ordinary code)"""
         fr = ctrl[0]
         if fr[0] == 'done': return False
@@ -668,7 +690,7 @@ class Engine:
         if I.op not in ('call', 'invoke') or I.callee.kind != 'global': return True
         nm = I.callee.name
         if nm not in VISIBLE_RT: return True
-        s.cur = t; s.depth = len(ctrl)
+        s.cur = t; s.depth = len(ctrl); s.env = env
         if nm == 'pthread_mutex_lock':
             return icmp('eq', s.mem.load(s.val(f, I.args[0]), 4, True, 'mutex', check=False), 0, 32)
         if nm in CV_WAIT and len(fr) > 3:
@@ -690,7 +712,7 @@ class Engine:
     def all_done_g(s, exclude):
         g = True
         for u in range(s.NT):
-            if u != exclude: g = gand(g, s.ctrlsets[u].get((('done',),), False))
+            if u != exclude: g = gand(g, s.ctrlsets[u].get((('done',),), (False, None))[0])
         return g
     def phase2(s, t, f, ctrl, I, g):
         nm = I.callee.name
